@@ -25,6 +25,9 @@ if mods:
         'LbzVerif.Props.C02.dummyTable_complete',
         'LbzVerif.Props.C02.treePad_in_range',
     ])
+sys.path.insert(0, os.path.dirname(os.path.abspath(__file__)))
+import inproc  # noqa: E402
+inproc.run_libs(ck, ['w16_transmit', 'w11_prefix'])
 exe = ck.build_lbzip2(asan=False)
 evals = 0
 seen = set()
